@@ -22,7 +22,7 @@ vars == <<m, t1, t2, a, b, phase>>
 Dm == Models[m]
 
 \* families that do not depend on (t2, b) / on b are checked once per (t1, a) / (t1, t2, a)
-OnlyA == {"unary", "cast", "sizeof", "init"}
+OnlyA == {"unary", "cast", "sizeof", "init", "bfinit"}
 OnlyAT == {"bound", "case", "width"}
 \* Dense = FALSE (quick tier): models A and B, fewer operand values, 7 x 5 of the 11 x 11 operand type pairs
 B1a == IF Dense THEN {0, 1, 2, 7, 8, 127, 128, 129, 254, 255} ELSE {0, 1, 128, 255}
@@ -35,7 +35,7 @@ ValsA(t, dm) == IF Size(t, dm) = 1 THEN {WFromNat(v, 1) : v \in B1a} ELSE {WFrom
 ValsB(t, dm) == IF Size(t, dm) = 1 THEN {WFromNat(v, 1) : v \in B1b} ELSE {WFromNat(v, 2) : v \in B2b}
 
 Families == {"types", "arith", "divrem", "bitwise", "rel", "logical", "shift", "unary", "cond", "cast",
-             "literal", "sizeof", "enum", "init", "bound", "case", "width"}
+             "literal", "sizeof", "enum", "init", "bound", "case", "width", "bfinit"}
 Init == /\ m \in (IF Dense THEN 1..Len(Models) ELSE 1..2) /\ t1 \in T1s /\ t2 \in T2s
         /\ a \in ValsA(t1, Models[m]) /\ b \in ValsB(t2, Models[m]) /\ phase = "pick"
 Check(f) == /\ phase = "pick" /\ phase' = f /\ UNCHANGED <<m, t1, t2, a, b>>
@@ -47,10 +47,10 @@ CheckBitwise == Check("bitwise")  CheckRel == Check("rel")         CheckLogical 
 CheckShift == Check("shift")      CheckUnary == Check("unary")     CheckCond == Check("cond")
 CheckCast == Check("cast")        CheckLiteral == Check("literal") CheckSizeof == Check("sizeof")
 CheckEnum == Check("enum")        CheckInit == Check("init")       CheckBound == Check("bound")
-CheckCase == Check("case")        CheckWidth == Check("width")
+CheckCase == Check("case")        CheckWidth == Check("width")     CheckBfInit == Check("bfinit")
 Next == \/ CheckTypes \/ CheckArith \/ CheckDivRem \/ CheckBitwise \/ CheckRel \/ CheckLogical \/ CheckShift
         \/ CheckUnary \/ CheckCond \/ CheckCast \/ CheckLiteral \/ CheckSizeof \/ CheckEnum \/ CheckInit
-        \/ CheckBound \/ CheckCase \/ CheckWidth
+        \/ CheckBound \/ CheckCase \/ CheckWidth \/ CheckBfInit
 
 \* a small slice of the domain, used for the run that records TLC's per-action coverage
 Tiny == m = 1 /\ t1 = "uchar" /\ t2 \in {"char", "ullong"}
@@ -241,4 +241,18 @@ LawWidth == phase = "width" =>
         ELSE /\ e.st = "ok"
              /\ \A j \in 1..Len(e.probes) : WToNat(e.probes[j].r) = Mod(WToNat(e.probes[j].x), Pow2(va))
              /\ \E j \in 1..Len(e.probes) : e.probes[j].r # e.probes[j].x \/ va = 8 * Size(ft, Dm)
+\* 6.7.9p11 + 6.3.1.3 with the bit-field's width: struct { unsigned u : W; int s : W; ... } = { A, A, ... }
+LawBfInit == phase = "bfinit" =>
+    \A W \in 1..(8 * Dm.ib - 1) :
+        LET ms == << [w |-> W, s |-> FALSE, e |-> A], [w |-> W, s |-> TRUE, e |-> A] >>
+            e == ExpectBfInit(ms, <<>>, Dm)
+            fits == -Pow2(W - 1) <= va /\ va < Pow2(W - 1)
+            PU == {j \in 1..Len(e.probes) : e.probes[j].x = <<1>>}
+            PS == {j \in 1..Len(e.probes) : e.probes[j].x = <<2>>} IN
+        /\ e.st = "ok"
+        /\ Cardinality(PU) = 1 /\ Cardinality(PS) = (IF fits THEN 1 ELSE 0)
+        /\ \A j \in PU : IV("uint", e.probes[j].r) = Mod(va, Pow2(W))
+        /\ \A j \in PS : IV("int", e.probes[j].r) = va
+        /\ (("bf-signed-open" \in e.fl) <=> ~fits)
+        /\ (("bfU" \in e.fl) <=> (va < 0 \/ va >= Pow2(W)))
 =============================================================================
